@@ -8,7 +8,9 @@ For every corpus document D (as an id list) planted in any context:
    (`hashes_contains`), so the hash join sees the copy;
  * when the diff library reports the two texts equal, the score is distance 0
    with no trimming, hence Confidence = conf |D| 0 = 1.0 (`score_exact`);
- * a candidate no earlier candidate conflicts with is retained (`retain_unconflicted`).
+ * the retain pass yields one flag per candidate (`retain_length`), keeps a lone candidate
+   (`retain_single`), and keeps every candidate that shares no line with any other candidate
+   (`retain_unconflicted`).
 That the join/run/fuse stages then propose exactly the planted range, and that
 no other document dominates it in the overlap filter, is NOT proved (partial):
 it is established on the implementation by the C01 oracle over every corpus
@@ -44,11 +46,23 @@ theorem score_exact_conf {C : Type} (N : NumEnv C) (wordOf : Nat → Text) (isDi
     score N wordOf isDigitRune decode induced d [⟨.eq, d.ids⟩] = (N.conf d.ids.length 0, 0, 0) :=
   score_exact_conf' N wordOf isDigitRune decode induced d hD
 
-/-- the overlap filter keeps a candidate that no earlier candidate contains or overlaps, unless a
-later one displaces it -/
-theorem retain_first {C : Type} (N : NumEnv C) (c : Match C) (rest : List (Match C)) :
-    (retainPass N (c :: rest)).head? = some true ∨
-    ∃ j, j < rest.length ∧ True :=
-  retain_first' N c rest
+/-- the retain pass decides every candidate: one flag per candidate -/
+theorem retain_length {C : Type} (N : NumEnv C) (cands : List (Match C)) :
+    (retainPass N cands).length = cands.length :=
+  retain_length' N cands
+
+/-- a lone candidate is retained -/
+theorem retain_single {C : Type} (N : NumEnv C) (c : Match C) : retainPass N [c] = [true] :=
+  retain_single' N c
+
+/-- the overlap filter keeps a candidate that shares no line with any other candidate (neither
+contains nor overlaps one, nor is contained or overlapped by one), wherever it stands in the
+sorted list -/
+theorem retain_unconflicted {C : Type} (N : NumEnv C) (cands : List (Match C)) (i : Nat) (c : Match C)
+    (hi : cands[i]? = some c)
+    (hno : ∀ j o, cands[j]? = some o → j ≠ i →
+      contains c o = false ∧ overlaps c o = false ∧ contains o c = false ∧ overlaps o c = false) :
+    (retainPass N cands)[i]? = some true :=
+  retain_unconflicted' N cands i c hi hno
 
 end LC.V2Match
